@@ -24,6 +24,30 @@ fn simple_tx(kc: &ExtKeychain, n: u32, fee: u32, value: u64) -> Transaction {
 	.unwrap()
 }
 
+/// a valid transaction whose kernel excess is the whole blinding sum (offset zero)
+fn zero_offset_tx(kc: &ExtKeychain, n: u32, fee: u32, value: u64) -> Transaction {
+	use grin_core::core::TxKernel;
+	use grin_core::libtx::aggsig;
+	let pb = ProofBuilder::new(kc);
+	let (tx, blind_sum) = build::partial_transaction(
+		Transaction::empty(),
+		&[build::input(value, key(1, n)), build::output(value - fee as u64, key(2, n))],
+		kc,
+		&pb,
+	)
+	.unwrap();
+	let secp = kc.secp();
+	let mut kernel = TxKernel::with_features(KernelFeatures::Plain { fee: fee.into() });
+	let msg = kernel.msg_to_sign().unwrap();
+	let skey = blind_sum.secret_key(secp).unwrap();
+	kernel.excess = secp.commit(0, skey.clone()).unwrap();
+	let pubkey = kernel.excess.to_pubkey(secp).unwrap();
+	kernel.excess_sig = aggsig::sign_single(secp, &msg, &skey, None, Some(&pubkey)).unwrap();
+	let mut tx = tx.replace_kernel(kernel);
+	tx.offset = BlindingFactor::zero();
+	tx
+}
+
 fn verdict_tx(tx: &Transaction) -> String {
 	match catch(std::panic::AssertUnwindSafe(|| tx.validate(Weighting::AsTransaction))) {
 		Ok(Ok(_)) => "ok".into(),
@@ -138,6 +162,28 @@ fn main() {
 			t.offset = BlindingFactor::from_slice(&b);
 			cases += 1;
 			expect_reject(&mut out, &format!("c01 tx n={} offset-replaced", n), &verdict_tx(&t), &mut bad);
+		}
+		// a zero-offset transaction whose offset field is overwritten by a value that is not a
+		// scalar of the group (all ones, the group order n, n + 1): such bytes must not be read as
+		// "no offset"
+		if n == 1 {
+			let order: [u8; 32] = [
+				0xFF, 0xFF, 0xFF, 0xFF, 0xFF, 0xFF, 0xFF, 0xFF, 0xFF, 0xFF, 0xFF, 0xFF, 0xFF, 0xFF, 0xFF, 0xFE, 0xBA, 0xAE, 0xDC, 0xE6, 0xAF, 0x48,
+				0xA0, 0x3B, 0xBF, 0xD2, 0x5E, 0x8C, 0xD0, 0x36, 0x41, 0x41,
+			];
+			let mut order1 = order;
+			order1[31] += 1;
+			let z = zero_offset_tx(&kc, 900 + n as u32, 3, 2_000_000);
+			out.line("c01 tx zero-offset valid", &verdict_tx(&z));
+			if verdict_tx(&z) != "ok" {
+				out.raw("#ORACLE-FAIL C01 valid zero-offset transaction rejected");
+			}
+			for (what, bytes) in [("all-ones", [0xFFu8; 32]), ("group-order", order), ("group-order+1", order1)] {
+				let mut t = z.clone();
+				t.offset = BlindingFactor::from_slice(&bytes);
+				cases += 1;
+				expect_reject(&mut out, &format!("c01 tx zero-offset offset-replaced-by-non-scalar {}", what), &verdict_tx(&t), &mut bad);
+			}
 		}
 		// kernel dropped / duplicated / foreign
 		if nk > 1 {
